@@ -1,5 +1,5 @@
 (** * C16 — built-in agents emit only valid instructions and never abort a simulation *)
-From Bourse Require Import Model.Types Model.Side Model.Book Model.Rng Model.Float Model.Env Model.Agents Proofs.AgentProps.
+From Bourse Require Import Model.Types Model.Side Model.Book Model.Rng Model.Float Model.Env Model.Agents Proofs.AgentProps Proofs.AgentDir Proofs.AgentOrders.
 
 (** An action with probability 0 never happens, one with probability 1 always
     does: the uniform [f32] draw is [k * 2^-24] with [k < 2^24]; it is never
@@ -23,7 +23,31 @@ Theorem c16_helper_prices_on_grid : forall p tick q,
   snap_to_grid p tick = Ok q -> q mod tick = 0 /\ q <= p.
 Proof. exact snap_on_grid. Qed.
 
+(** What an update submits. [adds_only P a e e']: after the update, book [a] of the
+    environment is its old order list with new orders appended, each satisfying
+    [P] (or the books are unchanged); nothing else is touched in any book (cancel
+    instructions only go to the queue). For a noise agent and a momentum agent
+    [P] = New order, the configured volume, a trader id of the agent's own range
+    [first .. first + n), and a price that is a multiple of the tick size or the
+    market-order sentinel of its side. For a random agent's slot [n]: trader id
+    [n], a volume in the configured half-open range and a price [tk * tick] with
+    [tk] in the configured half-open tick range. Arbitrary oracles, seeds, states. *)
+Theorem c16_noise_agent_orders : forall lognormal tanh64 k e c a orders first n p e' c' ag',
+  agent_update lognormal tanh64 k e c (ANoise a orders first n p) = Ok (e', c', ag') ->
+  adds_only (fun o => exists tr, first <= tr < first + n /\ agent_order (np_tick p) (np_vol p) tr o) a e e'.
+Proof. exact noise_update_orders. Qed.
+
+Theorem c16_momentum_agent_orders : forall lognormal tanh64 k e c a orders first n p last mom e' c' ag',
+  agent_update lognormal tanh64 k e c (AMomentum a orders first n p last mom) = Ok (e', c', ag') ->
+  adds_only (fun o => exists tr, first <= tr < first + n /\ agent_order (mp_tick p) (mp_vol p) tr o) a e e'.
+Proof. exact momentum_update_orders. Qed.
+
+Theorem c16_random_agent_orders : forall e c a p n slot e' c' slot',
+  random_slot e c a p n slot = Ok (e', c', slot') -> adds_only (random_order p n) a e e'.
+Proof. exact random_slot_orders. Qed.
+
 Check c16_probability_one_always.
+Check c16_noise_agent_orders.
 
 (** Non-vacuity: the modelled rounding agrees with the project's own unit tests. *)
 Example c16_rounding_examples :
@@ -37,3 +61,6 @@ Print Assumptions c16_probability_zero_never.
 Print Assumptions c16_probability_one_always.
 Print Assumptions c16_ranges_respected.
 Print Assumptions c16_helper_prices_on_grid.
+Print Assumptions c16_noise_agent_orders.
+Print Assumptions c16_momentum_agent_orders.
+Print Assumptions c16_random_agent_orders.
